@@ -46,6 +46,25 @@ type cursor struct {
 	match  func(kind, param, pos int) bool // the same predicate evaluated on the model sequence
 	read   func(pos int) string            // reads Index/Key/Value at pos; "" if they are those of pos
 	others func()                          // other read-only observers of the same container (Values, Keys, String)
+	// reent: the NextTo/PrevTo predicates themselves read the container (through
+	// others) every few invocations - pure, but re-entrant
+	reent  bool
+	pcalls int
+}
+
+func (cu *cursor) reenter() {
+	cu.pcalls++
+	every := 3
+	if cu.n > 64 {
+		if cu.name == "BinaryHeap" || cu.name == "PriorityQueue" {
+			return // (the heap's Values() is quadratic in the level width)
+		}
+		every = 61
+	}
+	if cu.reent && cu.others != nil && cu.pcalls%every == 1 {
+		cu.others()
+		cu.c.Count("obs:predicate-re-entered-container", 1)
+	}
 }
 
 func withReader(cu *cursor, f func()) *cursor { cu.others = f; return cu }
@@ -221,7 +240,12 @@ func idxCursor[T comparable](c *core.Ctx, name string, it containers.IteratorWit
 	pred := func(kind, param int) func(int, T) bool {
 		return func(i int, v T) bool { return evalPred(kind, param, i, uint64(i), hv(v)) }
 	}
-	cu := &cursor{c: c, name: name, n: len(seq), p: -1}
+	cu := &cursor{c: c, name: name, n: len(seq), p: -1, reent: c.Index%2 == 1}
+	pure := pred
+	pred = func(kind, param int) func(int, T) bool {
+		f := pure(kind, param)
+		return func(i int, v T) bool { cu.reenter(); return f(i, v) }
+	}
 	cu.next, cu.begin, cu.first = it.Next, it.Begin, it.First
 	cu.nextTo = func(kind, param int) bool { return it.NextTo(pred(kind, param)) }
 	cu.match = func(kind, param, pos int) bool { return evalPred(kind, param, pos, uint64(pos), hv(seq[pos])) }
@@ -251,7 +275,12 @@ func keyCursor[K comparable, V comparable](c *core.Ctx, name string, it containe
 	pred := func(kind, param int) func(K, V) bool {
 		return func(k K, v V) bool { return evalPred(kind, param, posOf(k), hv(k), hv(v)) }
 	}
-	cu := &cursor{c: c, name: name, n: len(keys), p: -1}
+	cu := &cursor{c: c, name: name, n: len(keys), p: -1, reent: c.Index%2 == 1}
+	pure := pred
+	pred = func(kind, param int) func(K, V) bool {
+		f := pure(kind, param)
+		return func(k K, v V) bool { cu.reenter(); return f(k, v) }
+	}
 	cu.next, cu.begin, cu.first = it.Next, it.Begin, it.First
 	cu.nextTo = func(kind, param int) bool { return it.NextTo(pred(kind, param)) }
 	cu.match = func(kind, param, pos int) bool { return evalPred(kind, param, pos, hv(keys[pos]), hv(vals[pos])) }
@@ -663,6 +692,7 @@ func init() {
 			"Each call is mirrored on an integer cursor over the container's own Values()/Keys() sequence; Index/Key/Value are read only after a successful move. Every case is non-trivial (>= 100 iterator calls); distinct = distinct hash of the call list.",
 		Floors: func(tier string, m map[string]int64) []string {
 			f := &floorCheck{m: m}
+			f.atLeast("obs:predicate-re-entered-container", 5000)
 			rev := map[string]bool{"SinglyLinkedList": false, "LinkedListStack": false, "LinkedListQueue": false}
 			for _, t := range iterTypes {
 				ops := []string{"Next", "Begin", "First", "NextTo"}
